@@ -25,6 +25,16 @@ CLAIMS = {
         technique="Lean 4 invariant proof over ALL schedules of an abstract process/file-system model (any number of processes, arbitrary stale files); naming flag and step order regenerated from function_compiler.cpp; correspondence by forcing interleavings of real processes through guarded scheduling points",
         text="C11_isolation: for every schedule every process is bound to code from its own expressions, none fails, and when all are done the directory equals the initial one; C11_progress shows the hypotheses are satisfiable. Tied to the source by the generated naming flag/step order and by exact agreement of model and real processes on forced interleavings (incl. the race witnesses of the old naming).",
         note=BASE_NOTE + "Modelled, not verified: atomicity of stat/open(O_TRUNC)/unlink and of gcc writing its output (OS contract); distinct pids of live processes; the two stat calls of the probe are one step in the real-process harness (the Lean model also has the finer two-step probe, C11_coarse_refines)."),
+    "C02": dict(
+        level="proof", design="DESIGN.md section 3, C02",
+        technique="Lean 4 proofs (core Rat + one Mathlib normed-space file) about the scan loop body, counter-mode decision, refresh wrap and list cutoff regenerated from verlet_creator.cpp by an SSA translator; correspondence of rebuild decisions and refreshed distances with the real binary through the observer; Verlet-vs-linked-cell equivalence runs",
+        text="C02_scan_sound/iff: no rebuild is skipped when two different particles together moved the skin, for every storage order; C02_scan_keeps_close_pairs + verlet_geometric: then every pair now inside rc was inside rc+skin at the last rebuild; refresh gives the minimum image and never reports a false close pair (sharp box condition); counter mode rebuilds exactly every 'every' calls. Generated definitions tie the theorems to the source; the real binary's decisions and distances equal the model's on every explored scenario.",
+        note=BASE_NOTE + "Composition with C01 (rebuilt list exact for rc+skin) is by hypothesis here and checked by the oracle. Fixed-interval mode: 'within the safe interval' is the user's premise. Modelled, not verified: rounding at rc +- ulp; colours without position integrator are assumed immobile; particles created after the first step (inlets)."),
+    "C06": dict(
+        level="proof", design="DESIGN.md section 3, C06",
+        technique="Lean 4 proofs about a transcription of Symbol::findStage / setSymbolStages / runSymbols order (stage correctness, uniqueness under permutation, cycle => error, termination bound, value order-independence); correspondence on random dependency graphs x module orders on the real binary (stages, execution trace, all values exact)",
+        text="For every symbol list: a successful stage assignment puts every symbol strictly after all other producers of what it reads, equals the longest-path level and is therefore the same for every module order; cycles always end in the stageIterations error; acyclic graphs of depth < stageIterations succeed in every order; scheduled evaluation never reads a stale value. The model's stages equal the real binary's for every explored graph and order, and the real values equal a direct evaluation in all orders.",
+        note=BASE_NOTE + "The model is hand-written (no translator): the tie is the correspondence only. Triplet/quintet and bonded calculators and the '_0' table are treated as further producers but not generated in scenarios; a candidate defect outside C06's statement (triplet calculators staged above every particle/pair stage are never run) is recorded in DESIGN.md."),
 }
 
 
